@@ -9,6 +9,7 @@ package pebbledb
 import (
 	"encoding/json"
 	"fmt"
+	"github.com/cockroachdb/pebble"
 	"os"
 	"path/filepath"
 	"sort"
@@ -60,6 +61,9 @@ func recordsOnly(s *PebbleScanner, m *refModel) []string {
 	return bad
 }
 
+// c07LegacySeed: the preload of the next history is rewritten into the pre-packed index format.
+var c07LegacySeed bool
+
 type c07Call struct {
 	op         storeOp
 	begin, end int
@@ -72,6 +76,7 @@ type c07Call struct {
 
 func c07RunHistory(r *vh.Report, sp *storeProbes, name string, ops []storeOp, preload int, scratch string, torn bool) {
 	defer func() { VerifFS = nil }()
+	legacy := c07LegacySeed
 	idPool := []string{"A", "B", "missing"}
 	cfs := crashfs.New()
 	VerifFS = cfs
@@ -93,6 +98,17 @@ func c07RunHistory(r *vh.Report, sp *storeProbes, name string, ops []storeOp, pr
 		if err := s.AddSignatures(ptrs); err != nil {
 			r.Fail("preload: %v", err)
 			return
+		}
+		if c07LegacySeed {
+			// the preloaded signatures carry index entries of the format before the packed one (the bare
+			// ID), and the schema marker of such a database is absent
+			for _, p := range ptrs {
+				c11RawSet(s, buildTopoIndexKey(p.TopologyHash, p.ID), []byte(p.ID))
+				if p.FuzzyHash != "" {
+					c11RawSet(s, buildFuzzyIndexKey(p.FuzzyHash, p.ID), []byte(p.ID))
+				}
+			}
+			s.db.Delete(buildMetaKey("schema_version"), pebble.Sync)
 		}
 	}
 	start := cfs.Len()
@@ -235,6 +251,21 @@ func c07RunHistory(r *vh.Report, sp *storeProbes, name string, ops []storeOp, pr
 					verdict = "interrupted rebuild: " + strings.Join(bad, "\n")
 				}
 				recovered["rebuild-interrupted"]++
+			} else if legacy {
+				// entries of the old format carry no entropy to pre-filter with: lookups legitimately return
+				// more candidates than the packed format would; records and index entries are judged
+				if inflight != nil && inflight.after != nil {
+					b1 := append(recordsOnly(rs, acked), indexConsistency(rs)...)
+					if len(b1) > 0 {
+						b2 := append(recordsOnly(rs, inflight.after), indexConsistency(rs)...)
+						if len(b2) > 0 {
+							verdict = fmt.Sprintf("in-flight %s on a database of the old index format: neither the state before it:\n%s\nnor the state after it:\n%s", infl, strings.Join(b1, "\n"), strings.Join(b2, "\n"))
+						}
+					}
+				} else if b1 := append(recordsOnly(rs, acked), indexConsistency(rs)...); len(b1) > 0 {
+					verdict = "database of the old index format, no call in flight; acknowledged state not recovered:\n" + strings.Join(b1, "\n")
+				}
+				recovered["legacy"]++
 			} else {
 				b1 := append(battery(rs, acked, sp, idPool, ""), indexConsistency(rs)...)
 				if len(b1) == 0 {
@@ -365,6 +396,14 @@ func TestVerifC07Bulk(t *testing.T) {
 		c07RunHistory(r, sp, "preload1>AddBatch(1500 new)", []storeOp{{Kind: "batch", Sigs: big, Name: "AddBatch(1500 new)"}}, 1, "", false)
 		r.Count("histories", 1)
 	}
+	// a database written by an older version (bare-ID index values, no schema marker) is opened:
+	// whatever the open does to it, every crash point inside the open leaves records and indexes
+	// consistent (readable in either format)
+	c07LegacySeed = true
+	c07RunHistory(r, sp, "legacy-preload5>Close+Reopen", []storeOp{{Kind: "reopen", Name: "Close+Reopen"}}, 5, "", false)
+	c07RunHistory(r, sp, "legacy-preload5>Close+Reopen>Add(A.v1)", []storeOp{{Kind: "reopen", Name: "Close+Reopen"}, {Kind: "add", Sigs: []detection.Signature{c06Sig(sp, "A", 0, 0, 0)}, Name: "Add(A.v1)"}}, 5, "", false)
+	c07LegacySeed = false
+	r.Count("histories", 2)
 	// a bulk import (MigrateFromJSON) whose size is below, exactly at, and above a multiple of its
 	// chunk size (1000): once it has returned, every signature of the file survives any crash
 	for _, n := range []int{1000, 700, 2000, 1500} {
